@@ -97,6 +97,8 @@ def clenshaw_rules(run, db):
         if len(stores) != 1:
             raise AnalysisError('%s: expected one store in the recurrence step' % qual)
         g_tgt, g_idx, g_val, g_node, _ = stores[0]
+        if g_idx is None or g_val is None:
+            raise AnalysisError('%s: what the recurrence step stores (or where) is not followed as a function of the index' % qual)
         if carried:
             sweep = descending_sweep(it, dom, node.iter, fr)
             if sweep is None:
@@ -1156,8 +1158,13 @@ def check(run, db, tier):
     from . import c12
     from .c02 import Proxy
     run.group(c12.coord_pure_rules, Proxy(run, {'C12.cache': 'C10.lstsq'}), db)
+    from . import clenshawfixed as CF
+    run.group(CF.decided, run, db)
+    guarded = {clenshaw_rules: (('jacobi_sum_clenshaw', 'clenshaw_qbfs', 'compute_z_zprime_Qcon', 'compute_z_zprime_Q2d'), 'C10.clenshaw', 12),
+               assembly_rules: (('clenshaw_qbfs', 'compute_z_zprime_Qbfs', 'compute_z_zprime_Qcon', 'compute_z_zprime_Q2d'), 'C10.assembly', 7),
+               len1_rules: (('jacobi_sum_clenshaw', 'clenshaw_qbfs', 'compute_z_zprime_Qbfs', 'compute_z_zprime_Qcon', 'compute_z_zprime_Q2d'), 'C10.len1', 4)}
     for fn in (clenshaw_rules, basis_rules, assembly_rules, len1_rules, sym_rules, mirror_rules, counter_rules, pack_rules, lstsq_rules):
-        run.group(fn, run, db)
+        run.group(CF.with_fallback(fn, *guarded[fn]) if fn in guarded else fn, run, db)
     run.require_instances('C10.basis', 9)
     run.require_instances('C10.assembly', 7)
     run.require_instances('C10.clenshaw', 12)
